@@ -17,7 +17,7 @@ RULE = ("every (variable, index tuple, mode, tolerance) read, every single and d
 ASSUMPTIONS = ["netCDF4 is replaced by harness/ncstub (API contract)", "files are produced by write_nc (decided by C19)",
                "list indices have no repeats in assignments"]
 
-FLOORS = {"fam=read": (400, 400), "fam=assign": (500, 500), "fam=append": (20, 20), "fam=multi": (30, 30), "fam=dsread": (30, 30), "mode=position": (300, 300),
+FLOORS = {"fam=read": (400, 400), "fam=assign": (500, 500), "fam=append": (20, 20), "fam=multi": (30, 30), "fam=zerod": (20, 20), "fam=dsread": (30, 30), "mode=position": (300, 300),
           "expect=IndexError": (50, 50), "tol": (30, 30), "assign-tol": (30, 30), "two-assignments": (5, 5), "0d": (2, 2), "str-labels": (100, 100)}
 
 PROFILES = ("always_mask", "mask_if_missing")
@@ -340,7 +340,8 @@ def _replay_multi(scn, tmp, codec, profile):
     for k in range(c["nf"]):
         a = dict(dims=["x", "y"], kinds=["i", "f"], labs=[xs[k], [3, 7]], aattrs=[0, 0], dtype="f", attrs=0,
                  cells=[100 * (k + 1) + j for j in range(1, 7)])
-        fn = os.path.join(tmp, "m%d.nc" % k)
+        # the list of files is given in an order that is not the lexicographic one (under one of the two profiles)
+        fn = os.path.join(tmp, ("m_%s.nc" % "zam"[k]) if profile == PROFILES[0] else ("m%d.nc" % k))
         ds = A.Dataset()
         ds["a"] = N.gamma(a, codec)
         ds["n"] = N.gamma(dict(a, dtype="i"), codec)
@@ -350,12 +351,18 @@ def _replay_multi(scn, tmp, codec, profile):
     keys = [10, 20, 30][:c["nf"]] if c["keys"] else None
     what = kind = None
     err = res = None
+    given = list(fns)
     try:
         axis = "k" if c["axis"] == "new" else c["axis"]
         res = A.da.read_nc(fns, axis=axis, keys=keys, **kw) if keys else A.da.read_nc(fns, axis=axis, **kw)
     except Exception as e:  # noqa
         err = e
-    if not exp["ok"]:
+    if fns != given:
+        fns = given
+        what, kind = "read_nc reordered the caller's list of file names", "argument-modified"
+    if what:
+        pass
+    elif not exp["ok"]:
         if err is None:
             what, kind = "expected ValueError (files differ on the other axes, align=False), got a result", "no-error"
         elif not isinstance(err, (ValueError, AssertionError)):
@@ -384,6 +391,49 @@ def _replay_multi(scn, tmp, codec, profile):
     return viol, 1
 
 
+def _replay_zerod(scn, fn, codec, profile):
+    i = scn["in"]
+    exp = scn["out"]
+    ds = A.Dataset()
+    ds["s"] = A.DimArray(5.25)
+    ds["v"] = A.DimArray([1.25, 2.25], axes=[("x", [10, 20])])
+    ds.write_nc(fn)
+    idx = {"sc": 0 if i["mode"] == "position" else 10, "li": [0], "sl": slice(0, 1), "str": "a", "dict": {"x": 10 if i["mode"] == "label" else 0},
+           "two": (0, 0), "empty": ()}[i["v"]]
+    what = kind = None
+    err = got = None
+    try:
+        if i["two"]:      # assignment through the handle
+            with A.da.open_nc(fn, "a") as h:
+                (h["s"].ix if i["mode"] == "position" else h["s"])[idx] = 9.25
+        else:
+            with A.da.open_nc(fn) as h:
+                got = (h["s"].ix if i["mode"] == "position" else h["s"])[idx]
+    except Exception as e:  # noqa
+        err = e
+    after = float(A.da.read_nc(fn)["s"].values)
+    other = A.da.read_nc(fn)["v"].values.tolist()
+    if exp["ok"]:
+        if err is not None:
+            what, kind = "the empty index on a 0-d variable raised %s: %s" % (type(err).__name__, str(err)[:150]), "raised"
+        elif i["two"] and after != 9.25:
+            what, kind = "assignment to the 0-d variable not stored: %r" % after, "not-stored"
+        elif not i["two"] and float(np.asarray(got.values if hasattr(got, "values") else got)) != 5.25:
+            what, kind = "read of the 0-d variable returned %r" % (got,), "value"
+    else:
+        if err is None:
+            what, kind = ("an index (%r) on a 0-d variable on disk was accepted%s; the loaded array rejects it"
+                          % (idx, (" and overwrote the value with %r" % after) if i["two"] else (" and returned %r" % (got,)))), "accepted"
+        elif not isinstance(err, (IndexError, ValueError, KeyError)):
+            what, kind = "expected IndexError / ValueError, got %s: %s" % (type(err).__name__, str(err)[:150]), "wrong-exception"
+        elif after != 5.25:
+            what, kind = "a rejected assignment changed the 0-d variable in the file to %r" % after, "changed"
+    if what is None and other != [1.25, 2.25]:
+        what, kind = "another variable of the file changed: %s" % other, "other-changed"
+    viol = [dict(what=what, sig="ondisk/zerod/%s/%s/write=%s/%s/%s" % (profile, i["v"], i["two"], i["mode"], kind), variant=profile)] if what else []
+    return viol, 1
+
+
 def replay(scn):
     fam = scn["in"]["fam"]
     viol, calls = [], 0
@@ -401,6 +451,8 @@ def replay(scn):
                 v, c = _replay_dsread(scn, fn, codec, profile)
             elif fam == "append":
                 v, c = _replay_append(scn, fn, codec, profile)
+            elif fam == "zerod":
+                v, c = _replay_zerod(scn, fn, codec, profile)
             else:
                 v, c = _replay_multi(scn, tmp, codec, profile)
             viol += v
